@@ -322,3 +322,9 @@ def run(ctx):
     r = ctx.rule("R5", "render handles: cache keyed by trace, tape caches per shape, recycle order child -> tapes -> shape", 15)
     ctx.guarded(r, RH.r_cache_key)
     ctx.guarded(r, RH.r_recycle)
+    # slot arrays survive between calls and are not cleared: results are history-free only because a tape
+    # reads no register or spill slot before writing it - which is the allocator's load / store protocol
+    from .. import allocproto as AP_
+
+    r = ctx.rule("R6", "a compiled tape never reads a spill slot it did not store first (allocator protocol), so stale slots are unobservable", 21)
+    ctx.guarded(r, AP_.r4_protocol)
